@@ -33,8 +33,8 @@ META = {
                   "acceptance threshold 1-eps^2/2 round to 1.0 and the grid search is left through a swallowed exception: reported as mechanism "
                   "rs:float64-floor. A miss after all max_search_trials attempts is the documented behaviour and is only counted (budget_limited); the "
                   "design's 10x-budget re-run is infeasible because trial k costs ~2^k.",
-    "shards": {"quick": 3, "thorough": 16},
-    "budget_s": {"quick": 100, "thorough": 300},
+    "shards": {"quick": 8, "thorough": 16},
+    "budget_s": {"quick": 35, "thorough": 300},
     "min_evals": {"quick": 400, "thorough": 3000},
     "min_nontrivial": {"quick": 100, "thorough": 800},
     "deciding": ["rs.bound", "rs.gateset", "sk.bound", "sk.gateset", "ct.gate", "ct.circuit"],
@@ -618,10 +618,10 @@ def run(ctx):
         gridsynth_validation()
 
     # ------------------------------------------------------------------ drive
-    eps_rs = [1e-1, 3e-2, 1e-2, 1e-3, 1e-4, 1e-5, 1e-6] if ctx.quick else [1e-1, 3e-2, 1e-2, 1e-3, 1e-4, 1e-5, 1e-6, 1e-6, 1e-7, 1e-7, 1e-8]
-    n_rs = ctx.n(900, 16000)
-    n_sk = ctx.n(90, 1600)
-    n_ct = ctx.n(240, 3200)
+    eps_rs = [1e-1, 3e-2, 1e-2, 1e-3, 1e-4, 1e-5] if ctx.quick else [1e-1, 3e-2, 1e-2, 1e-3, 1e-4, 1e-5, 1e-6, 1e-6, 1e-7, 1e-7, 1e-8]
+    n_rs = ctx.n(640, 16000)
+    n_sk = ctx.n(48, 1600)
+    n_ct = ctx.n(160, 3200)
     state = {}
     total = n_rs + n_sk + n_ct
     # interleave the three families so that a time-limited run still reaches all deciding monitors
